@@ -540,6 +540,11 @@ func cancelOutcome(s *Script) error {
 // handler is still in flight).
 var BeforeOutcome func(ctx context.Context, s *Script)
 
+// OutcomeErr, when set, may replace the error a failing scripted unary / init
+// handler is about to return (a handler that reports why it gave up: the
+// context's own error).
+var OutcomeErr func(ctx context.Context, s *Script, err error) error
+
 // InitHook, when set, is called at the start of every scripted handler (world
 // specific probes: sticky sessions, transport kind, hash ...).
 var InitHook func(ctx context.Context, cc *vgirpc.CallContext, s *Script)
@@ -576,7 +581,11 @@ func preamble(ctx context.Context, cc *vgirpc.CallContext, p ScriptParams) (*Scr
 	}
 	switch s.Outcome {
 	case "error":
-		return s, s.Err.Build()
+		err := s.Err.Build()
+		if f := OutcomeErr; f != nil {
+			err = f(ctx, s, err)
+		}
+		return s, err
 	case "panic":
 		panic(panicValue(s.Panic, s.Nonce))
 	}
